@@ -298,6 +298,13 @@ func (g *gen) defs(mi int, m *Mod) {
 		}
 		m.Typedefs = append(m.Typedefs, td)
 	}
+	if g.p.Extras && t.Chance(1, 8) {
+		// a string typedef with three patterns and two types refining it with one more each
+		base := &Typedef{Name: g.id("t"), Type: &Type{Ref: Ref{"", "string"}, Patterns: []string{"a.*", "b.*", ".*c"}}}
+		d1 := &Typedef{Name: g.id("t"), Type: &Type{Ref: Ref{m.Name, base.Name}, Patterns: []string{g.id("q") + ".*"}}}
+		d2 := &Typedef{Name: g.id("t"), Type: &Type{Ref: Ref{m.Name, base.Name}, Patterns: []string{g.id("q") + ".*"}}}
+		m.Typedefs = append(m.Typedefs, base, d1, d2)
+	}
 	for k := g.rng(g.p.Groupings); k > 0; k-- {
 		v := g.visibleFrom(mi, m)
 		gr := &Grouping{Name: g.id("g")}
@@ -577,6 +584,12 @@ func (g *gen) node(mi int, m *Mod, sc *scope, where string, depth int) *Node {
 		}
 		if t.Chance(1, 10) {
 			n.Ext = g.id("x")
+			if t.Chance(1, 2) {
+				// three or five statements leave spare capacity in the slice that holds them
+				for k := []int{2, 4}[t.Intn(2)]; k > 0; k-- {
+					n.Ext += "," + g.id("x")
+				}
+			}
 		}
 	}
 	config := func() {
@@ -605,6 +618,9 @@ func (g *gen) node(mi int, m *Mod, sc *scope, where string, depth int) *Node {
 		}
 		if g.p.Extras && t.Chance(1, 8) {
 			n.When = "../" + g.id("w")
+		}
+		if g.p.Extras && t.Chance(1, 6) {
+			n.Ext = g.id("ux")
 		}
 		return n
 	case KLeaf:
